@@ -129,7 +129,7 @@ func (u *Unit) argShape(e ast.Expr, at ast.Node, depth int) string {
 			// between named types of the same representation are noise
 			if b, ok := tv.Type.(*types.Basic); ok {
 				switch b.Kind() {
-				case types.Uint8, types.Uint16, types.Uint32, types.Uint64, types.Int8, types.Int16, types.Int32, types.Int64:
+				case types.Uint16, types.Uint32, types.Uint64, types.Int16, types.Int32, types.Int64:
 					return types.Typ[b.Kind()].Name() + "(" + u.argShape(x.Args[0], at, depth) + ")"
 				}
 			}
